@@ -73,6 +73,7 @@ structure Node where
   fingers   : List (Option Nat) := List.replicate 48 none     -- index k-1 holds finger k
   store     : List KEntry := []
   crashed   : Bool := false          -- harness-level fault: every RPC to this node fails
+  joinLocals : Option (Nat × Option Nat) := none   -- `Join`'s local variables (predecessor, successors[0]) while it is in flight
 deriving Repr, Inhabited
 
 abbrev Net := List (Nat × Node)
@@ -339,7 +340,8 @@ def joinBegin (net : Net) (j peer : Nat) : Net × Option Err :=
     let net := net.upd j (fun nd => { nd with state := .joining })
     match requestToJoin net FUEL peer j with
     | (net', .error e) => (net'.upd j (fun nd => { nd with state := .inactive }), some e)
-    | (net', .ok (prev, succs)) => (net'.upd j (fun nd => { nd with succs := succs, pred := some prev }), none)
+    | (net', .ok (prev, succs)) =>
+      (net'.upd j (fun nd => { nd with succs := succs, pred := some prev, joinLocals := some (prev, succs.head?) }), none)
 
 /-- second half of `Join`: startTasks (stabilize, fixFinger), advisory to the predecessor,
     Joining→Active, release of the successor's membership lock -/
@@ -349,11 +351,15 @@ def joinEnd (net : Net) (j : Nat) : Net :=
   | some nd =>
     let net' := fixFinger (stabilize net j) j          -- startTasks: run once …
     let net' := checkPredecessor net' j                -- … then the periodic predecessor check starts at once
-    let net' := match nd.pred with
+    -- `Join` keeps using its local variables, whatever Notify did to the pointers meanwhile
+    let (prev?, succ?) : Option Nat × Option Nat := match nd.joinLocals with
+      | some (p, s) => (some p, s)
+      | none => (nd.pred, nd.succs.head?)
+    let net' := match prev? with
       | some prev => finish net' prev true false        -- advisory to predecessor
       | none => net'
-    let net' := net'.upd j (fun nd => { nd with state := .active })
-    match nd.succs.head? with
+    let net' := net'.upd j (fun nd => { nd with state := .active, joinLocals := none })
+    match succ? with
     | some s => finish net' s false true                -- release successor's membership lock
     | none => net'
 
